@@ -120,6 +120,7 @@ func init() {
 			return append(early, late...)
 		},
 		Oracles:      []scn.Oracle{oracleC06},
+		Extra:        c06ClnRecover,
 		NeedOutcomes: []string{"State_ClaimedPreimage", "State_ClaimedCoop"},
 	})
 	register(&PropSpec{
